@@ -2,6 +2,7 @@ import DhcpProofs.Lemmas.V6NoPanic
 import DhcpProofs.Lemmas.V6Termination
 import DhcpProofs.Lemmas.V4Opts
 import DhcpProofs.Props.C06
+import DhcpProofs.Props.C16
 import DhcpProofs.Props.C18
 import DhcpProofs.Props.C19
 /-
@@ -124,6 +125,22 @@ theorem C03_v6_loops_fuel (f1 f2 : Nat) (l : Lexer) (h1 : l.data.length < f1) (h
     (∀ acc, V6.ip16Loop f1 l acc = V6.ip16Loop f2 l acc) :=
   ⟨fun p acc => V6.tlvLoop_fuel p f1 f2 l acc h1 h2, fun acc => V6.u16Loop_fuel f1 f2 l acc h1 h2,
    fun acc => V6.lenPrefLoop_fuel f1 f2 l acc h1 h2, fun acc => V6.ip16Loop_fuel f1 f2 l acc h1 h2⟩
+
+/-- **C03 (DHCPv6 builders and relay handling on decoded messages).** For every byte
+string the decoder accepts: `GetInnerMessage`, the relay-reply builder (with any
+reply message) and the request builder do not panic, and neither do the
+advertise and reply builders on a decoded client message.  Restated from C16,
+which owns the builder model (`Dhcp/V6/Build.lean`, unchecked type assertions
+modelled as `panic`); the request builder is the one case where decodedness is
+needed (`C16_request_panics`: a hand-built message can make it panic). -/
+theorem C03_v6_builders_decoded (b : Bytes) (m reply : V6.Msg6) (xid : Bytes) (h : V6.dec6 b = .ok m) :
+    V6.getInnerMessage m ≠ .panic ∧
+    V6.newRelayReplFromRelayForw m reply ≠ .panic ∧
+    V6.newRequestFromAdvertise xid m [] ≠ .panic ∧
+    (∀ t x os, m = .msg t x os →
+      V6.newAdvertiseFromSolicit m [] ≠ .panic ∧ V6.newReplyFromMessage m [] ≠ .panic) :=
+  ⟨(C16_inner_total m).1, (C16_relay_reply_rejects m reply).2.2, C16_request_decoded b m xid h,
+   fun t x os hm => by subst hm; exact ⟨(C16_advertise t x os).2.2.2, (C16_reply_rejects t x os).2.2.2⟩⟩
 
 /-- The no-panic statements hold at every fuel, not only the one the entry points
 pass: the argument does not depend on fuel sufficiency. -/
